@@ -30,6 +30,7 @@ type typ struct {
 	n      int // array length
 	fields []field
 	str    string // Go type expression; identity key
+	under  *typ   // named non-struct types: the unnamed underlying type
 	simple int8   // cache: 0 unknown, 1 yes, 2 no
 }
 
@@ -52,6 +53,13 @@ func (g *gen) arr(n int, e *typ) *typ {
 func (g *gen) slice(e *typ) *typ { return g.intern(&typ{k: kSlice, elem: e, str: "[]" + e.str}) }
 func (g *gen) mapOf(e *typ) *typ { return g.intern(&typ{k: kMap, elem: e, str: "map[int]" + e.str}) }
 func (g *gen) ptr(e *typ) *typ   { return g.intern(&typ{k: kPtr, elem: e, str: "*" + e.str}) }
+
+// named declares `type name under`.
+func (g *gen) namedType(name string, under *typ) *typ {
+	t := g.intern(&typ{k: under.k, elem: under.elem, n: under.n, str: name, under: under})
+	g.named = append(g.named, t)
+	return t
+}
 
 // isSimple: the value holds no slice and no pointer anywhere, so fmt's %v
 // prints it completely and deterministically (maps print in key order).
@@ -196,6 +204,13 @@ type place struct {
 	// dereference written out, when the last step indexes an array through a
 	// pointer implicitly (p[i] for (*p)[i]); "" otherwise.
 	explicit string
+	// derefIndexInside: an index step is applied to a dereferenced pointer
+	// (spelled (*p)[i] or p[i]) and a later step is not an index.
+	derefIndexInside bool
+	derefIndex       bool // an index step is applied to a dereferenced pointer
+	// mapStatic: the last step indexes a map whose own place is static (a
+	// fixed location: no operand other than the constant key is evaluated).
+	mapStatic bool
 }
 
 // addrOf renders &place.
@@ -218,9 +233,18 @@ func (p place) wguards() []string {
 func (g *gen) inst(root string, rootStatic bool, sc schema) place {
 	p := place{expr: root, t: sc.end, addr: sc.addr, assignable: sc.assignable, static: sc.static && rootStatic, root: root}
 	pending := "" // pointer expression whose explicit dereference is the current expr
+	ptrIdx := false
+	staticSoFar := rootStatic
 	for _, st := range sc.steps {
 		base := p.expr
 		p.explicit = ""
+		if pending != "" && (st.k == sArr || st.k == sSlice || st.k == sMap) {
+			ptrIdx = true
+		}
+		if ptrIdx {
+			p.derefIndex = true
+			p.derefIndexInside = st.k == sField || st.k == sDeref
+		}
 		switch st.k {
 		case sField:
 			if pending != "" && g.chance(50) {
@@ -249,9 +273,12 @@ func (g *gen) inst(root string, rootStatic bool, sc schema) place {
 			p.expr = fmt.Sprintf("%s[%d]", base, g.mapKey(base))
 			pending = ""
 		}
-		p.lastMap = ""
+		p.lastMap, p.mapStatic = "", false
 		if st.k == sMap {
-			p.lastMap = base
+			p.lastMap, p.mapStatic = base, staticSoFar
+		}
+		if st.k != sField && st.k != sArr {
+			staticSoFar = false
 		}
 	}
 	return p
